@@ -187,7 +187,20 @@ func (c19) Gen(seed uint64, tier string) *Scenario {
 		sc.Files = append(sc.Files, FileSpec{Name: name, B64: base64.StdEncoding.EncodeToString(data)})
 	}
 	sc.Files = append(sc.Files, FileSpec{Name: "other.csv", Content: "k,v\n1,one\n2,two\n"})
-	switch r.Intn(8) {
+	switch r.Intn(10) {
+	case 8:
+		// the same file through the table cache and through an inline table function
+		if m.Source == "file" {
+			m.Stmts = []string{fmt.Sprintf("SELECT COUNT(*) FROM %s;", src), fmt.Sprintf("SELECT * FROM CSV_INLINE(',', %s);", src), fmt.Sprintf("SELECT * FROM JSON_INLINE('', %s);", src)}
+		} else {
+			m.Stmts = []string{"SELECT * FROM STDIN;", "SELECT COUNT(*) FROM STDIN;"}
+		}
+	case 9:
+		if m.Source == "file" {
+			m.Stmts = []string{fmt.Sprintf("UPDATE %s SET c1 = 'u';", src), fmt.Sprintf("SELECT * FROM CSV_INLINE(',', %s);", src), "ROLLBACK;"}
+		} else {
+			m.Stmts = []string{"SELECT c1 FROM STDIN ORDER BY c1;"}
+		}
 	case 0, 1:
 		m.Stmts = []string{fmt.Sprintf("SELECT * FROM %s;", src)}
 	case 2:
